@@ -29,6 +29,7 @@ pub fn run(cfg: &Cfg) -> i32 {
     gc.pure_functions = true;
     gc.thread_boost = true;
     gc.divert_global = true;
+    gc.call_mid_expression_boost = true;
     let opts = CmpOpts::default();
     let mut sampled = 0;
     for i in 0..nprog {
